@@ -24,7 +24,36 @@ def registry():
     return reg
 
 
+def run_all(argv):
+    """development aid: decide every claimed property in one process (shared extraction and abstract runs);
+    prints one summary line per property; exit 1 if any reports a violation"""
+    tier = "thorough" if "--thorough" in argv else "quick"
+    reg = registry()
+    only = [a for a in argv if a in reg]
+    rc = 0
+    path, key, dt, cached = extract.extract("lib", force=(tier == "thorough"))
+    A = protocol.Analysis(path)
+    for prop in sorted(only or reg):
+        t0 = time.time()
+        R = framework.Report(prop, LEVELS.get(prop, "other"))
+        try:
+            R.info["analysed"] = dict(bodies=len(A.facts.bodies), source_hash=key)
+            reg[prop](A, R, tier)
+        except Imprecision as e:
+            R.ob("A0", "fail closed: %s" % e, False)
+        except Exception as e:
+            traceback.print_exc()
+            R.ob("A0", "fail closed: internal error %s" % type(e).__name__, False, detail=str(e))
+        for r in A.runs.values():
+            if r.err:
+                R.ob("A1", "%s | %s | analysis error" % (r.entry.split("::")[-1], r.label), False, detail=r.err)
+        rc |= framework.finish(R, tier, t0, dict(facts=path, source_hash=key), quiet=True)
+    return rc
+
+
 def main(argv):
+    if argv and argv[0] == "--all":
+        return run_all(argv[1:])
     if len(argv) >= 2 and argv[0] == "--explain":
         with open(argv[1]) as fh:
             print(json.dumps(json.load(fh), indent=1))
